@@ -1,6 +1,6 @@
-(* ServiceProofs.v — invariants of the service monitor (Client/Service.v). *)
-From Coq Require Import List NArith Bool Lia.
-From GM Require Import Base.Lts Codec.Packet Client.Service Client.ServiceSpec.
+(* ServiceProofs.v — invariants of the service monitor (Client/Service.v) over all accepted traces. *)
+From Coq Require Import List NArith Bool Lia Sorted.
+From GM Require Import Base.Lts Codec.Packet Client.Service Client.ServiceSpec Client.ServiceLemmas.
 Import ListNotations.
 Open Scope N_scope.
 
@@ -8,3 +8,205 @@ Definition reach (c : N) (s : state) : Prop := exists es, run step (init c) es =
 
 Lemma reach_init c : reach c (init c).
 Proof. exists []; reflexivity. Qed.
+
+(* the one induction (Base/Lts.v), specialised *)
+Lemma reach_inv (Inv : state -> Prop) c :
+  Inv (init c) ->
+  (forall s e s', Inv s -> step s e = Some s' -> Inv s') ->
+  forall s, reach c s -> Inv s.
+Proof.
+  intros H0 Hs s (es & Hrun).
+  exact (invariant_all_traces state event step Inv (init c) H0 Hs es s Hrun).
+Qed.
+
+(* ---------------------------------------------------------------- control invariant *)
+
+Definition stopping (s : state) : bool := match ap s with AStop _ true => true | _ => false end.
+
+Record inv_ctl (s : state) : Prop := {
+  ic_idle  : sp s = SIdle <-> (started s = false /\ stopping s = false);
+  ic_dying : dying s = stopping s;
+  ic_start : forall ok, ap s = AStart ok -> started s = true;
+  ic_stop  : forall c ok, ap s = AStop c ok -> started s = false;
+  ic_store : NoDup (map fst (store s))
+}.
+
+Lemma inv_ctl_init c : inv_ctl (init c).
+Proof. constructor; cbn; try tauto; try discriminate; try constructor. Qed.
+
+Lemma stop_clear_ctl s : inv_ctl s -> stopping s = false -> inv_ctl (stop_clear s).
+Proof.
+  intros [H1 H2 H3 H4 H5] Hs. constructor; cbn; auto. constructor.
+Qed.
+
+Ltac rw_ctl :=
+  repeat match goal with
+  | E : ap _ = _ |- _ => rewrite E in *; clear E
+  | E : sp _ = _ |- _ => rewrite E in *; clear E
+  | E : started _ = _ |- _ => rewrite E in *; clear E
+  | E : dying _ = _ |- _ => rewrite E in *; clear E
+  end.
+
+Lemma store_del_nodup id st : NoDup (map fst st) -> NoDup (map fst (store_del id st)).
+Proof. intros H; exact (proj1 (store_del_keys id st H)). Qed.
+
+Ltac split_ap :=
+  repeat match goal with
+  | |- context [match ap ?s with _ => _ end] =>
+    let Eap := fresh "Eap" in destruct (ap s) as [| | |? ? []] eqn:Eap; cbn in *
+  end.
+
+Lemma inv_ctl_step s e s' : inv_ctl s -> step s e = Some s' -> inv_ctl s'.
+Proof.
+  intros I H. destruct e; step_inv H.
+  all: destruct I as [I1 I2 I3 I4 I5];
+       unfold stopping, stop_clear, pop_cmd, handover, put_entry, enqueue in *;
+       repeat match goal with |- context [if ?c then _ else _] => destruct c end;
+       cbn in *; split_ap; constructor; cbn in *; rw_ctl;
+       auto using store_put_keys, store_del_nodup, NoDup_nil;
+       try solve [intuition (try congruence; try discriminate)].
+  all: try specialize (I4 _ _ eq_refl);
+       repeat match goal with b : bool |- _ => destruct b end; cbn in *;
+       try solve [intuition (try congruence; try discriminate)].
+Qed.
+
+(* ---------------------------------------------------------------- order of commands *)
+
+Record inv_fifo (s : state) : Prop := {
+  if_sub    : Subseq (dispatched s ++ queue s) (issued s);
+  if_all    : drained s = [] -> issued s = dispatched s ++ queue s;
+  if_sorted : StronglySorted N.lt (map fst (issued s));
+  if_lt     : Forall (fun n => n < nextn s) (map fst (issued s));
+  if_api    : forall n b bl, ap s = ACmd n b bl -> n < nextn s;
+  if_blk    : forall n b, ap s = ACmd n b true -> Forall (fun m => m < n) (map fst (issued s));
+  if_itags  : map fst (itags s) = map fst (issued s);
+  if_dtags  : map fst (dtags s) = map fst (dispatched s);
+  if_subs   : subs s = fold_left (fun m b => apply_body b m) (map snd (dispatched s)) []
+}.
+
+Lemma inv_fifo_init c : inv_fifo (init c).
+Proof. constructor; cbn; try constructor; try reflexivity; try discriminate. Qed.
+
+Lemma sorted_snoc l x : StronglySorted N.lt l -> Forall (fun m => m < x) l -> StronglySorted N.lt (l ++ [x]).
+Proof.
+  induction 1 as [|y l Hs IH Hy]; intros Hf; cbn [app].
+  - constructor; constructor.
+  - inversion Hf; subst. constructor; auto.
+    apply Forall_app; split; auto.
+Qed.
+
+Lemma forall_lt_weaken l a b : a <= b -> Forall (fun m => m < a) l -> Forall (fun m => m < b) l.
+Proof. intros H. apply Forall_impl. intros; lia. Qed.
+
+Lemma forall_snoc (P : N -> Prop) l x : Forall P l -> P x -> Forall P (l ++ [x]).
+Proof. intros; apply Forall_app; split; auto. Qed.
+
+Lemma subseq_enq {A} (d q i : list A) c : Subseq (d ++ q) i -> Subseq (d ++ q ++ [c]) (i ++ [c]).
+Proof. intros H. rewrite app_assoc. apply Subseq_app_both; exact H. Qed.
+
+Lemma subseq_pop {A} (d q i : list A) c : Subseq (d ++ c :: q) i -> Subseq ((d ++ [c]) ++ q) i.
+Proof. rewrite <- app_assoc. cbn [app]. auto. Qed.
+
+Lemma subseq_pop_enq {A} (d q i : list A) c c' : Subseq (d ++ c :: q) i -> Subseq ((d ++ [c]) ++ q ++ [c']) (i ++ [c']).
+Proof. intros H. apply subseq_enq. apply subseq_pop. exact H. Qed.
+
+Lemma subseq_drain {A} (d q i : list A) : Subseq (d ++ q) i -> Subseq (d ++ []) i.
+Proof. rewrite app_nil_r. apply Subseq_drop_tail. Qed.
+
+Lemma fold_apply_snoc l b :
+  fold_left (fun m b => apply_body b m) (l ++ [b]) [] = apply_body b (fold_left (fun m b => apply_body b m) l []).
+Proof. rewrite fold_left_app. reflexivity. Qed.
+
+Ltac open_step e H :=
+  destruct e; step_inv H;
+  unfold stop_clear, pop_cmd, handover, put_entry, enqueue, enter_dispatch, set_sp, set_ap, set_kill, set_futs, set_store in *;
+  repeat match goal with |- context [if ?c then _ else _] => destruct c end;
+  cbn in *; split_ap.
+
+Lemma inv_fifo_step s e s' : inv_fifo s -> step s e = Some s' -> inv_fifo s'.
+Proof.
+  intros I H. open_step e H.
+  all: destruct I as [I1 I2 I3 I4 I5 I6 I7 I8 I9]; constructor; cbn in *;
+       repeat rewrite map_app; cbn [map fst snd]; rw_ctl;
+       try match goal with E : queue _ = _ |- _ => rewrite E in * end;
+       try assumption; try discriminate.
+  all: try (rewrite I8; reflexivity).
+  all: try (rewrite I7; reflexivity).
+  all: try (apply subseq_pop; assumption).
+  all: try (apply subseq_pop_enq; assumption).
+  all: try (apply subseq_enq; assumption).
+  all: try (eapply subseq_drain; eassumption).
+  all: try (intros Hd; rewrite (I2 Hd); repeat rewrite <- app_assoc; reflexivity).
+  all: try (intros Hd; apply app_eq_nil in Hd; destruct Hd as [Hd Hq]; rewrite (I2 Hd), Hq; reflexivity).
+  all: try (intros ? ? ? Heq; injection Heq as <- <- <-; first [eapply I5; reflexivity | lia]).
+  all: try (intros ? ? Heq; injection Heq as <- <-; first [eapply I6; reflexivity | assumption]).
+  all: try (apply sorted_snoc; [assumption| first [eapply I6; reflexivity | assumption]]).
+  all: try (apply forall_snoc; [first [assumption | eapply forall_lt_weaken; [|eassumption]; lia] | first [lia | eapply I5; reflexivity]]).
+  all: try (eapply forall_lt_weaken; [|eassumption]; lia).
+  all: rewrite fold_apply_snoc; f_equal; exact I9.
+Qed.
+
+(* ---------------------------------------------------------------- offline commands wait for a connection *)
+
+Record inv_tags (s : state) : Prop := {
+  it_issue  : forall n t, In (n, t) (itags s) ->
+              i_ready t <= ready s /\ (i_online t = false -> online_now s = true -> i_ready t < ready s);
+  it_online : online_now s = true -> 1 <= ready s;
+  it_disp   : forall n r, In (n, r) (dtags s) ->
+              1 <= r /\ r <= ready s /\
+              forall t, In (n, t) (itags s) -> i_ready t <= r /\ (i_online t = false -> i_ready t < r)
+}.
+
+Lemma inv_tags_init c : inv_tags (init c).
+Proof. constructor; cbn; try tauto; discriminate. Qed.
+
+Lemma tags_frame s s' :
+  itags s' = itags s -> dtags s' = dtags s -> ready s' = ready s ->
+  (online_now s' = true -> online_now s = true) ->
+  inv_tags s -> inv_tags s'.
+Proof.
+  intros Hi Hd Hr Ho [J1 J2 J3]. constructor; rewrite ?Hi, ?Hd, ?Hr.
+  - intros n t Hin. destruct (J1 n t Hin) as [Ha Hb]. split; auto.
+  - auto.
+  - exact J3.
+Qed.
+
+Lemma tags_enter s : inv_tags s -> inv_tags (enter_dispatch s).
+Proof.
+  intros [J1 J2 J3]. constructor; cbn.
+  - intros n t Hin. destruct (J1 n t Hin) as [Ha Hb]. split; intros; lia.
+  - intros _. lia.
+  - intros n r Hin. destruct (J3 n r Hin) as (Ha & Hb & Hc). split; [exact Ha|]. split; [lia|exact Hc].
+Qed.
+
+Lemma disp_in_issued s n : inv_fifo s -> In n (map fst (dtags s)) -> In n (map fst (issued s)).
+Proof.
+  intros I Hin. rewrite (if_dtags s I) in Hin.
+  apply in_map_iff in Hin. destruct Hin as ([m b] & Hm & Hin). cbn in Hm; subst m.
+  apply in_map_iff. exists (n, b). split; [reflexivity|].
+  eapply Subseq_in; [exact (if_sub s I)|]. apply in_or_app; left; exact Hin.
+Qed.
+
+Lemma queue_in_issued s n b : inv_fifo s -> In (n, b) (queue s) -> In n (map fst (issued s)).
+Proof.
+  intros I Hin. apply in_map_iff. exists (n, b). split; [reflexivity|].
+  eapply Subseq_in; [exact (if_sub s I)|]. apply in_or_app; right; exact Hin.
+Qed.
+
+(* a new issue tag for a number that is not yet issued *)
+Lemma tags_enqueue s n b :
+  ~ In n (map fst (issued s)) -> inv_fifo s -> inv_tags s -> inv_tags (enqueue s n b).
+Proof.
+  intros Hfresh I [J1 J2 J3]. constructor; cbn.
+  - intros m t Hin. apply in_app_or in Hin. destruct Hin as [Hin|[Heq|[]]].
+    + exact (J1 m t Hin).
+    + injection Heq as <- <-. cbn. split; [lia|]. intros H1 H2. change (online_now s = true) in H2. congruence.
+  - exact J2.
+  - intros m r Hin. destruct (J3 m r Hin) as (Ha & Hb & Hc). split; [exact Ha|]. split; [exact Hb|].
+    intros t Hin'. apply in_app_or in Hin'. destruct Hin' as [Hin'|[Heq|[]]]; [auto|].
+    injection Heq as <- <-. exfalso. apply Hfresh. apply disp_in_issued; auto.
+    apply in_map_iff. exists (n, r); auto.
+Qed.
+
+Lemma online_now_enqueue s n b : online_now (enqueue s n b) = online_now s.
+Proof. reflexivity. Qed.
